@@ -210,7 +210,7 @@ Definition mnamed_body (conv : ty -> pv -> res pv) c x :=
 Lemma mar_S n t x : mar rt E (S n) t x =
   match t with
   | TLeaf s | TRefLeaf s => leaf_m rt s x
-  | TNone => Ok x
+  | TNone => if is_none_val rt x then Ok x else Raise EValue
   | TSeq k a => mseq_body (mar rt E n) a x
   | TMap k kt vt => mmap_body (mar rt E n) kt vt x
   | TTuple ts => mtuple_body (mar rt E n) ts x
